@@ -519,15 +519,26 @@ func (st *state) apply(o op, r *core.Run) *core.Violation {
 	switch o.kind {
 	case opAdd:
 		p := pool[o.pol].proto
+		var pos *cedar.Position
 		if o.fresh {
 			p = freshPolicy(o.pol)
+			if (o.pol+o.id)%2 == 0 {
+				// a policy that carries a source identity: every such policy claims the same
+				// file and the same position (as the first statement of two versions of one
+				// file does), so a replacement differs from what it replaces only in content
+				p.SetFilename("renamed.cedar")
+				pos = &cedar.Position{Filename: "renamed.cedar", Offset: 0, Line: 1, Column: 1}
+				if old := st.model[id]; old != nil && old.pos != nil && *old.pos == *pos && old.text != pool[o.pol].text {
+					r.Count("reach.add_replaces_same_named_position")
+				}
+			}
 		}
 		_, existed := st.model[id]
 		got := st.live.Add(id, p)
 		if got != !existed {
 			return viol("add-return", "Add(%q) returned %v, the id %s in the model", id, got, map[bool]string{true: "existed", false: "did not exist"}[existed])
 		}
-		st.model[id] = &entry{text: pool[o.pol].text, ptr: p}
+		st.model[id] = &entry{text: pool[o.pol].text, ptr: p, pos: pos}
 	case opRemove:
 		_, existed := st.model[id]
 		got := st.live.Remove(id)
